@@ -1,5 +1,5 @@
 (* C07 — no deadlock, lost wake-up or unbounded blocking. Theorems over QueueLts (write pipeline), MutexAtomicity (generic two-lock discipline), CallbackLts (callbacks run with no lock held). Only `exact` + Print Assumptions. *)
-Require Import KV.Base KV.QueueLts KV.QueueLtsProofs KV.MutexAtomicity KV.CallbackLts KV.CallbackProofs.
+Require Import KV.Base KV.QueueLts KV.QueueLtsProofs KV.MutexAtomicity KV.CallbackLts KV.CallbackProofs KV.NotifierLts KV.NotifierProofs.
 Open Scope Z_scope.
 
 (* lock discipline at every reachable state: a thread blocked on the drain token holds no lock; blocked on the shard lock it holds at most the drain token; blocked on a channel or on workers.Wait it holds neither; TryLock paths are always enabled: no cycle in the wait-for graph *)
@@ -9,12 +9,15 @@ Theorem c07_lock_order :
          wf_scripts scripts ->
          QueueLtsProofs.reachable (init_scripts f n B scripts) s ->
          QueueLtsProofs.thr s tid th ->
-         (blocks_on_drainMu (QueueLts.pc th) = true -> drainMu s <> Some tid /\ mu s <> Some tid) /\
+         (blocks_on_drainMu (QueueLts.pc th) = true ->
+          drainMu s <> Some tid /\ QueueLts.mu s <> Some tid) /\
          (blocks_on_mu (QueueLts.pc th) = true ->
-          mu s <> Some tid /\
+          QueueLts.mu s <> Some tid /\
           (drainMu s = Some tid <-> QueueLts.pc th = P312 \/ QueueLts.pc th = P332)) /\
-         (blocks_on_chan (QueueLts.pc th) = true -> drainMu s <> Some tid /\ mu s <> Some tid) /\
-         (mu s = Some tid -> QueueLts.pc th = P351 /\ (forall c : bool, lstepc c s tid <> None)) /\
+         (blocks_on_chan (QueueLts.pc th) = true ->
+          drainMu s <> Some tid /\ QueueLts.mu s <> Some tid) /\
+         (QueueLts.mu s = Some tid ->
+          QueueLts.pc th = P351 /\ (forall c : bool, lstepc c s tid <> None)) /\
          (QueueLts.pc th = P322 \/ QueueLts.pc th = P323 \/ QueueLts.pc th = P106 ->
           forall c : bool, lstepc c s tid <> None).
 Proof. exact QueueLtsProofs.lock_order. Qed.
@@ -29,7 +32,7 @@ Theorem c07_no_lost_wake :
          cseq (cell_at s (tail s)) = tail s + 1 ->
          drainMu s = None ->
          QueueLts.closeCh s = false ->
-         wakeTok s = true \/
+         QueueLts.wakeTok s = true \/
          (exists (tid : nat) (th : QueueLts.thread),
             QueueLtsProofs.thr s tid th /\ cur th = Some OWorker /\ wsetN (QueueLts.pc th) = true) \/
          (exists (tid : nat) (th : QueueLts.thread),
@@ -45,7 +48,7 @@ Theorem c07_wake_state_sound :
          QueueLtsProofs.reachable (init_scripts f n B scripts) s ->
          wakeState s = 1 ->
          QueueLts.closeCh s = false ->
-         wakeTok s = true \/
+         QueueLts.wakeTok s = true \/
          (exists (tid : nat) (th : QueueLts.thread),
             QueueLtsProofs.thr s tid th /\ cur th = Some OWorker /\ wsetW (QueueLts.pc th) = true).
 Proof. exact QueueLtsProofs.wake_state_sound. Qed.
@@ -133,10 +136,62 @@ Proof. exact MutexAtomicity.lock_order_no_cycle. Qed.
 
 (* expiry callbacks run with no cache lock held (so they may call back into the cache) *)
 Theorem c07_callbacks_hold_no_lock :
-  forall (dflt : Z) (s : state) (t : tid) (tk : task) (g : tg) (w : tid),
-         reachable dflt s ->
+  forall (dflt : Z) (s : CallbackLts.state) (t : tid) (tk : task) (g : tg) (w : tid),
+         CallbackLts.reachable dflt s ->
          thr s t = TCall tk g w -> rw_w (smu s) <> Some t /\ ~ In t (rw_r (smu s)) /\ dmu s <> Some t.
 Proof. exact CallbackProofs.B7_no_lock_held. Qed.
+
+(* removal listeners run with no shard lock held by the notifier, so a listener that calls back into the cache cannot self-deadlock on the shard mutex *)
+Theorem c07_listeners_hold_no_lock :
+  forall (re : Z -> option (nat * Z)) (n : nat) (scripts : list (list (nat * Z))) (s : state),
+         reachable re n scripts s ->
+         match npos s with
+         | NDeliver _ | NReent _ MIdle _ _ => forall sh : nat, mu (shards s sh) <> Some OwNot
+         | NReent _ MLocked j _ | NReent _ MAppended j _ | NReent _ MFlagged j _ |
+           NReent _ MSignalled j _ => forall sh : nat, mu (shards s sh) = Some OwNot -> sh = j
+         | _ => True
+         end.
+Proof. exact NotifierProofs.listener_without_lock. Qed.
+
+(* a removal caused by a re-entrant listener call is delivered in the same pass or covered by the wake token it signalled *)
+Theorem c07_reentrant_listener_progress :
+  forall (re : Z -> option (nat * Z)) (n : nat) (scripts : list (list (nat * Z))) 
+           (s : state) (c : bool) (s' : state) (i j : nat) (y : Z),
+         reachable re n scripts s ->
+         npos s = NReent i MSignalled j y ->
+         step re s (LNot c) = Some s' ->
+         npos s' = NDeliver i /\
+         (exists pre : list Z, buf (shards s' j) = pre ++ [y]) /\
+         pending (shards s' j) = true /\
+         wakeTok s' = true /\
+         ((i < j)%nat -> covers (npos s') j) /\
+         (closeCh s' = false -> npos s' = NDeliver i /\ ((i < j)%nat \/ wakeTok s' = true)).
+Proof. exact NotifierProofs.reentrant_stage_delivered. Qed.
+
+(* the notifier is blocked only at its select without a token or behind a mutator that is itself enabled; every notifier step decreases a measure *)
+Theorem c07_notifier_never_stuck :
+  forall (re : Z -> option (nat * Z)) (rank : Z -> nat) (n : nat)
+           (scripts : list (list (nat * Z))) (s : state),
+         (forall (x : Z) (j : nat) (y : Z), re x = Some (j, y) -> (rank y < rank x)%nat) ->
+         reachable re n scripts s ->
+         closeCh s = false ->
+         (forall t : nat, mpos (muts s t) <> MIdle -> exists s' : state, step re s (LMut t) = Some s') /\
+         (forall c : bool,
+          step re s (LNot c) = None ->
+          npos s = NSelect /\ wakeTok s = false \/
+          (exists sh t : nat,
+             mu (shards s sh) = Some (OwMut t) /\
+             mpos (muts s t) <> MIdle /\ (exists s' : state, step re s (LMut t) = Some s'))) /\
+         (quiescent s ->
+          forall sh : nat,
+          buf (shards s sh) <> [] -> forall c : bool, exists s' : state, step re s (LNot c) = Some s') /\
+         (forall (c : bool) (s' : state),
+          step re s (LNot c) = Some s' -> (measure rank s' < measure rank s)%nat) /\
+         (quiescent s ->
+          npos s = NSelect ->
+          wakeTok s = false ->
+          forall sh : nat, buf (shards s sh) = [] /\ proj sh (staged s) = proj sh (delivered s)).
+Proof. exact NotifierProofs.eventual_delivery. Qed.
 
 (* non-vacuity: blocked producer released by the space token *)
 Theorem c07_backpressure_example :
@@ -163,7 +218,7 @@ Theorem c07_rearm_example :
           312; 0; 0]; [313; 0; 0]; [121; 0; 0]; [122; 0; 0]; [303; 0; 0]; [
           304; 0; 0]] /\
          applied (fst r) = [1; 2; 3] /\
-         wakeTok (fst r) = false /\ head (fst r) = 3 /\ tail (fst r) = 3.
+         QueueLts.wakeTok (fst r) = false /\ head (fst r) = 3 /\ tail (fst r) = 3.
 Proof. exact QueueLtsProofs.rearm_cas. Qed.
 
 Print Assumptions c07_lock_order.
@@ -177,5 +232,8 @@ Print Assumptions c07_ring_shape.
 Print Assumptions c07_two_lock_deadlock_free.
 Print Assumptions c07_two_lock_no_cycle.
 Print Assumptions c07_callbacks_hold_no_lock.
+Print Assumptions c07_listeners_hold_no_lock.
+Print Assumptions c07_reentrant_listener_progress.
+Print Assumptions c07_notifier_never_stuck.
 Print Assumptions c07_backpressure_example.
 Print Assumptions c07_rearm_example.
